@@ -25,10 +25,11 @@ VARIABLES ha,        \* registered HA nodes (ha_nodes/*)
           inst,      \* mysync process per real host
           health,    \* health record of a host whose mysync is dead
           mysql,     \* mysqld per real host
+          opt,       \* optimisation registry entry per name: "none" | "new" | "enabled" | "garbage"
           sqlerr,    \* how SQL calls of the daemons answer
           zkerr,     \* how coordination calls answer
           hist
-vars == <<ha, casc, master, active, switch, maint, recov, inst, health, mysql, sqlerr, zkerr, hist>>
+vars == <<ha, casc, master, active, switch, maint, recov, inst, health, mysql, opt, sqlerr, zkerr, hist>>
 
 MasterVals == Names \cup {"absent", "garbage", "empty"}
 ActiveVals == {"auto", "absent", "garbage", "empty", "ghost", "all_ghost"}
@@ -38,57 +39,64 @@ CascVals   == {"none", "h1", "h2", "self", Ghost, "empty", "garbage"}
 HealthVals == {"auto", "missing", "garbage", "stale"}
 SqlVals    == {"ok", "fail", "nulls"}
 ZkVals     == {"ok", "fail"}
+OptVals    == {"none", "new", "enabled", "garbage"}
 
 TypeOK == /\ ha \subseteq Names /\ casc \in [{"h3", Ghost} -> CascVals] /\ master \in MasterVals
           /\ active \in ActiveVals /\ switch \in SwitchVals /\ maint \in MaintVals /\ recov \subseteq Names
           /\ inst \in [Real -> {"run", "dead"}] /\ health \in [Real -> HealthVals]
           /\ mysql \in [Real -> {"up", "down"}] /\ sqlerr \in SqlVals /\ zkerr \in ZkVals
+          /\ opt \in [{"h2", "h3", Ghost} -> OptVals]
 
 Init == /\ ha = Real /\ casc = [h \in {"h3", Ghost} |-> "none"] /\ master = "h1" /\ active = "auto"
         /\ switch = "absent" /\ maint = "absent" /\ recov = {} /\ inst = [h \in Real |-> "run"]
         /\ health = [h \in Real |-> "auto"] /\ mysql = [h \in Real |-> "up"] /\ sqlerr = "ok" /\ zkerr = "ok"
+        /\ opt = [h \in {"h2", "h3", Ghost} |-> "none"]
         /\ hist = <<>>
 
 Rec(var, key, val) == [var |-> var, key |-> key, val |-> val]
 Log(r) == hist' = Append(hist, r)
 
 AddHost(h)    == h \notin ha /\ ha' = ha \cup {h} /\ Log(Rec("ha", h, "add"))
-                 /\ UNCHANGED <<casc, master, active, switch, maint, recov, inst, health, mysql, sqlerr, zkerr>>
+                 /\ UNCHANGED <<casc, master, active, switch, maint, recov, inst, health, mysql, opt, sqlerr, zkerr>>
 RemoveHost(h) == h \in ha /\ ha' = ha \ {h} /\ Log(Rec("ha", h, "remove"))
-                 /\ UNCHANGED <<casc, master, active, switch, maint, recov, inst, health, mysql, sqlerr, zkerr>>
+                 /\ UNCHANGED <<casc, master, active, switch, maint, recov, inst, health, mysql, opt, sqlerr, zkerr>>
 SetCasc(h, v) == casc[h] # v /\ casc' = [casc EXCEPT ![h] = v] /\ Log(Rec("casc", h, v))
-                 /\ UNCHANGED <<ha, master, active, switch, maint, recov, inst, health, mysql, sqlerr, zkerr>>
+                 /\ UNCHANGED <<ha, master, active, switch, maint, recov, inst, health, mysql, opt, sqlerr, zkerr>>
 SetMaster(v)  == master # v /\ master' = v /\ Log(Rec("master", "", v))
-                 /\ UNCHANGED <<ha, casc, active, switch, maint, recov, inst, health, mysql, sqlerr, zkerr>>
+                 /\ UNCHANGED <<ha, casc, active, switch, maint, recov, inst, health, mysql, opt, sqlerr, zkerr>>
 SetActive(v)  == active # v /\ active' = v /\ Log(Rec("active", "", v))
-                 /\ UNCHANGED <<ha, casc, master, switch, maint, recov, inst, health, mysql, sqlerr, zkerr>>
+                 /\ UNCHANGED <<ha, casc, master, switch, maint, recov, inst, health, mysql, opt, sqlerr, zkerr>>
 SetSwitch(v)  == switch # v /\ switch' = v /\ Log(Rec("switch", "", v))
-                 /\ UNCHANGED <<ha, casc, master, active, maint, recov, inst, health, mysql, sqlerr, zkerr>>
+                 /\ UNCHANGED <<ha, casc, master, active, maint, recov, inst, health, mysql, opt, sqlerr, zkerr>>
 SetMaint(v)   == maint # v /\ maint' = v /\ Log(Rec("maint", "", v))
-                 /\ UNCHANGED <<ha, casc, master, active, switch, recov, inst, health, mysql, sqlerr, zkerr>>
+                 /\ UNCHANGED <<ha, casc, master, active, switch, recov, inst, health, mysql, opt, sqlerr, zkerr>>
 Mark(h)       == h \notin recov /\ recov' = recov \cup {h} /\ Log(Rec("recov", h, "add"))
-                 /\ UNCHANGED <<ha, casc, master, active, switch, maint, inst, health, mysql, sqlerr, zkerr>>
+                 /\ UNCHANGED <<ha, casc, master, active, switch, maint, inst, health, mysql, opt, sqlerr, zkerr>>
 Unmark(h)     == h \in recov /\ recov' = recov \ {h} /\ Log(Rec("recov", h, "remove"))
-                 /\ UNCHANGED <<ha, casc, master, active, switch, maint, inst, health, mysql, sqlerr, zkerr>>
+                 /\ UNCHANGED <<ha, casc, master, active, switch, maint, inst, health, mysql, opt, sqlerr, zkerr>>
 Kill(h)       == inst[h] = "run" /\ inst' = [inst EXCEPT ![h] = "dead"] /\ Log(Rec("inst", h, "dead"))
-                 /\ UNCHANGED <<ha, casc, master, active, switch, maint, recov, health, mysql, sqlerr, zkerr>>
+                 /\ UNCHANGED <<ha, casc, master, active, switch, maint, recov, health, mysql, opt, sqlerr, zkerr>>
 Start(h)      == inst[h] = "dead" /\ inst' = [inst EXCEPT ![h] = "run"] /\ health' = [health EXCEPT ![h] = "auto"]
                  /\ Log(Rec("inst", h, "run"))
-                 /\ UNCHANGED <<ha, casc, master, active, switch, maint, recov, mysql, sqlerr, zkerr>>
+                 /\ UNCHANGED <<ha, casc, master, active, switch, maint, recov, mysql, opt, sqlerr, zkerr>>
 SetHealth(h, v) == inst[h] = "dead" /\ v # "auto" /\ health[h] # v /\ health' = [health EXCEPT ![h] = v]
                  /\ Log(Rec("health", h, v))
-                 /\ UNCHANGED <<ha, casc, master, active, switch, maint, recov, inst, mysql, sqlerr, zkerr>>
+                 /\ UNCHANGED <<ha, casc, master, active, switch, maint, recov, inst, mysql, opt, sqlerr, zkerr>>
 Crash(h)      == mysql[h] = "up" /\ mysql' = [mysql EXCEPT ![h] = "down"] /\ Log(Rec("mysql", h, "down"))
-                 /\ UNCHANGED <<ha, casc, master, active, switch, maint, recov, inst, health, sqlerr, zkerr>>
+                 /\ UNCHANGED <<ha, casc, master, active, switch, maint, recov, inst, health, opt, sqlerr, zkerr>>
 Restart(h)    == mysql[h] = "down" /\ mysql' = [mysql EXCEPT ![h] = "up"] /\ Log(Rec("mysql", h, "up"))
-                 /\ UNCHANGED <<ha, casc, master, active, switch, maint, recov, inst, health, sqlerr, zkerr>>
+                 /\ UNCHANGED <<ha, casc, master, active, switch, maint, recov, inst, health, opt, sqlerr, zkerr>>
 SetSql(v)     == sqlerr # v /\ sqlerr' = v /\ Log(Rec("sqlerr", "", v))
-                 /\ UNCHANGED <<ha, casc, master, active, switch, maint, recov, inst, health, mysql, zkerr>>
+                 /\ UNCHANGED <<ha, casc, master, active, switch, maint, recov, inst, health, mysql, opt, zkerr>>
 \* the client workload commits on every server that accepts writes (commits hang when no acker is left)
 Commit        == Log(Rec("commit", "", "all"))
+                 /\ UNCHANGED <<ha, casc, master, active, switch, maint, recov, inst, health, mysql, opt, sqlerr, zkerr>>
+\* an entry of the optimisation registry appears / changes / goes (mysync optimize on|off, the manager's own
+\* turbo mode, an external tool); it may name a host that is not registered (any more)
+SetOpt(h, v)  == opt[h] # v /\ opt' = [opt EXCEPT ![h] = v] /\ Log(Rec("opt", h, v))
                  /\ UNCHANGED <<ha, casc, master, active, switch, maint, recov, inst, health, mysql, sqlerr, zkerr>>
 SetZk(v)      == zkerr # v /\ zkerr' = v /\ Log(Rec("zkerr", "", v))
-                 /\ UNCHANGED <<ha, casc, master, active, switch, maint, recov, inst, health, mysql, sqlerr>>
+                 /\ UNCHANGED <<ha, casc, master, active, switch, maint, recov, inst, health, mysql, opt, sqlerr>>
 
 Next == /\ Len(hist) < MaxLen
         /\ \/ \E h \in Names : AddHost(h) \/ RemoveHost(h) \/ Mark(h) \/ Unmark(h)
@@ -102,6 +110,7 @@ Next == /\ Len(hist) < MaxLen
            \/ \E v \in SqlVals : SetSql(v)
            \/ \E v \in ZkVals : SetZk(v)
            \/ Commit
+           \/ \E h \in {"h2", "h3", Ghost}, v \in OptVals : SetOpt(h, v)
 Spec == Init /\ [][Next]_vars
 
 \* behaviour export: one line per complete behaviour (always TRUE)
